@@ -78,7 +78,7 @@ def replay_known(ctx, binp):
             continue
         ctx.evaluations += 1
         ctx.count_case("sched:" + name, nontrivial=True)
-        sched = open(os.path.join(ROOT, "corpus", "C05", "known", name + ".sched")).read()
+        sched = open(os.path.join(ROOT, "corpus", "C05", "fixed", name + ".sched")).read()
         obs = " ".join("%s=%s" % x for x in sorted(kv.items()))
         if kv.get("lost") == "true":
             # a tree whose facts say the window is protected must not lose: a different key, so that the
@@ -222,13 +222,16 @@ def run(ctx):
         "scan_race_safe: the timeout scans hold exitMutex.RLock across 'out of the in-flight/deferred map … back on the "
         "queue' (tie scan_holds_exit_lock; replayed: exit_races_timeout_scan); persisted_ignores_exiting: GetMetadata does "
         "not consult exit flags (tie metadata_ignores_exit_flag; replayed: exit_races_pending_notify)",
-        "C05_partial (tree without the repairs): no publisher is between Topic.PutMessage's exitFlag test and its queue "
-        "write, no consumer pump holds a received, unregistered message and no REQ/TOUCH is between popInFlightMessage "
-        "and its re-insertion while the three exit stages run; C05_full is false (C05_full_false); all five witnesses "
-        "are replayed on the real code as known findings",
-        "C05_fixed_partial / fixed_tree_loses_only_pump_window (tree with fixes/F17 + fixes/F18, selected by the ties "
-        "topic_exit_flag_shape / answers_exit_lock_shape): no consumer pump registers a message after its channel was "
-        "flushed (lateReg = []); C05_full_fixed is false (C05_full_fixed_false: the pump window stays open)",
+        "C05_full_tree / C05_full_joined (THE theorem for the current tree; no hypothesis): the instance of the race model "
+        "selected by the regenerated facts is joinedTree (ties topic_exit_flag_shape F17, answers_exit_lock_shape F18, "
+        "exit_joins_pumps_shape F23, get_topic_exit_shape F26 demand exactly the committed shapes; tree_model_known is an "
+        "equality). What remains assumed is the model itself: ONE durable topic with one durable channel, message contents "
+        "abstracted, several topics interacting only through the NSQD lock (pubNewTopic)",
+        "theorems about the UNREPAIRED shapes (not about this tree): C05_full_false / C05_full_fixed_false / "
+        "each_repair_needed (dropping any one of F17, F18, F23, F26 re-opens its window), C05_partial and C05_fixed_partial "
+        "(hypotheses: no publisher between the exitFlag test and its queue write, no pump holding an unregistered message, "
+        "no REQ/TOUCH between pop and re-insertion; resp. lateReg = [] and lateTopic = []); all six witnesses are replayed "
+        "on the real code on every run and a reproduction is a VIOLATION (the findings are recorded fixed)",
         "ephemeral topics/channels are outside the property; a durable channel under an ephemeral topic is not restored "
         "(its files stay as orphans: C08 finding)",
     ]
